@@ -57,6 +57,12 @@ type lgActorKey struct{}
 
 const lgTopic = "vt"
 
+// Decoy data: another partition of the same topic and another topic share the bucket, the segment cache and the
+// metadata store with the partition under test and hold different bytes at the same offsets; none of it may ever
+// show up in a read of the partition under test.
+const lgDecoyTopic = "vt2"
+const lgDecoy = "decoy"
+
 type lgRun struct {
 	mu      sync.Mutex
 	seq     int64
@@ -175,6 +181,16 @@ func (s *lgS3) put(ctx context.Context, kind, key string, body []byte) error {
 	if !live {
 		return errors.New("broker incarnation is gone")
 	}
+	if p == lgDecoy {
+		s.mu.Lock()
+		if kind == "seg" {
+			s.seg[key] = append([]byte(nil), body...)
+		} else {
+			s.idx[key] = append([]byte(nil), body...)
+		}
+		s.mu.Unlock()
+		return nil
+	}
 	out := s.r.gate(p + ":up" + kind)
 	if _, still := s.r.live(ctx); !still {
 		return errors.New("broker incarnation is gone")
@@ -281,6 +297,9 @@ func (s *lgStore) UpdateOffsets(ctx context.Context, topic string, partition int
 	if _, known := lgWho(ctx); known && !live {
 		return errors.New("broker incarnation is gone")
 	}
+	if topic != lgTopic || partition != 0 {
+		return s.Store.UpdateOffsets(ctx, topic, partition, lastOffset)
+	}
 	// Adversarial store latency: when two updates overlap in time (possible only if the caller does not
 	// serialise them), the older one is delivered last.
 	s.imu.Lock()
@@ -362,7 +381,10 @@ func lgBatch(pidx, k, n int, kind string) []byte {
 func lgMeta() metadata.ClusterMetadata {
 	cid := "c"
 	return metadata.ClusterMetadata{ClusterID: &cid, Brokers: []protocol.MetadataBroker{{NodeID: 1, Host: "localhost", Port: 19092}},
-		Topics: []protocol.MetadataTopic{{Topic: kmsg.StringPtr(lgTopic), Partitions: []protocol.MetadataPartition{{Partition: 0, Leader: 1, Replicas: []int32{1}, ISR: []int32{1}}}}}}
+		Topics: []protocol.MetadataTopic{
+			{Topic: kmsg.StringPtr(lgTopic), Partitions: []protocol.MetadataPartition{{Partition: 0, Leader: 1, Replicas: []int32{1}, ISR: []int32{1}}, {Partition: 1, Leader: 1, Replicas: []int32{1}, ISR: []int32{1}}}},
+			{Topic: kmsg.StringPtr(lgDecoyTopic), Partitions: []protocol.MetadataPartition{{Partition: 0, Leader: 1, Replicas: []int32{1}, ISR: []int32{1}}}},
+		}}
 }
 
 func lgRunSchedule(t *testing.T, sc lgSched) (lines []map[string]any, hits map[string]int) {
@@ -376,10 +398,14 @@ func lgRunSchedule(t *testing.T, sc lgSched) (lines []map[string]any, hits map[s
 				if _, known := lgWho(ctx); known && !live {
 					return
 				}
-				r.emit(map[string]any{"src": "log", "ev": ev, "p": p, "a": a, "b": b, "st": l.VerifState()})
+				st := l.VerifState()
+				if st.Topic != lgTopic || st.Partition != 0 {
+					return
+				}
+				r.emit(map[string]any{"src": "log", "ev": ev, "p": p, "a": a, "b": b, "st": st})
 			},
 			Gate: func(ctx context.Context, point string, l *storage.PartitionLog) {
-				if p, live := r.live(ctx); live {
+				if p, live := r.live(ctx); live && p != lgDecoy {
 					r.gate(p + ":" + point)
 				}
 			},
@@ -404,6 +430,54 @@ func lgRunSchedule(t *testing.T, sc lgSched) (lines []map[string]any, hits map[s
 		}
 		h := mk()
 		up := true
+		decoyK := 0
+		mirrored := 0 // number of trace lines already scanned for commits to mirror
+		// decoyMirror writes one batch of cnt records to every decoy partition, so that the decoy partitions hold
+		// segments with the SAME base offsets as the partition under test (different bytes), written later.
+		decoyMirror := func(cnt int) {
+			r.amu.Lock()
+			inc := r.inc
+			r.amu.Unlock()
+			ctx := context.WithValue(context.Background(), lgActorKey{}, lgActor{p: lgDecoy, inc: inc})
+			for _, tp := range []struct {
+				topic string
+				part  int32
+			}{{lgTopic, 1}, {lgDecoyTopic, 0}} {
+				decoyK++
+				req := kmsg.NewPtrProduceRequest()
+				req.Acks, req.TimeoutMillis, req.Version = -1, 1000, 9
+				rt := kmsg.NewProduceRequestTopic()
+				rt.Topic = tp.topic
+				rp := kmsg.NewProduceRequestTopicPartition()
+				rp.Partition, rp.Records = tp.part, lgBatch(9, decoyK%200, cnt, "ok")
+				rt.Partitions = append(rt.Partitions, rp)
+				req.Topics = append(req.Topics, rt)
+				cid := lgDecoy
+				if out, err := h.handleProduce(ctx, &protocol.RequestHeader{APIKey: 0, APIVersion: 9, CorrelationID: 7, ClientID: &cid}, req); err != nil || out == nil {
+					t.Fatalf("verif harness: decoy produce failed: %v", err)
+				}
+			}
+		}
+		// mirror every segment the partition under test committed since the last call
+		decoy := func() {
+			r.mu.Lock()
+			var todo []int
+			for ; mirrored < len(r.lines); mirrored++ {
+				m := r.lines[mirrored]
+				if m["ev"] == "FlushCommit" {
+					todo = append(todo, int(m["b"].(int64)-m["a"].(int64))+1)
+				}
+			}
+			r.mu.Unlock()
+			if !up {
+				return
+			}
+			for _, cnt := range todo {
+				if cnt >= 1 && cnt < 100 {
+					decoyMirror(cnt)
+				}
+			}
+		}
 		sent := map[string]int{}
 		ref := map[int64][]byte{} // base offset -> bytes of the batch currently at that offset
 		var refMu sync.Mutex
@@ -489,7 +563,14 @@ func lgRunSchedule(t *testing.T, sc lgSched) (lines []map[string]any, hits map[s
 			reads := []map[string]any{}
 			for o := int64(0); o < st.Next; o++ {
 				for _, mb := range sc.MBs {
-					res, err := plog.Read(readerCtx, o, int32(mb))
+					res, err := func() (res []byte, err error) {
+						defer func() {
+							if rec := recover(); rec != nil {
+								res, err = nil, fmt.Errorf("panic in PartitionLog.Read: %v", rec)
+							}
+						}()
+						return plog.Read(readerCtx, o, int32(mb))
+					}()
 					var m map[string]any
 					switch {
 					case errors.Is(err, storage.ErrOffsetOutOfRange):
@@ -515,7 +596,14 @@ func lgRunSchedule(t *testing.T, sc lgSched) (lines []map[string]any, hits map[s
 				ft.Partitions = append(ft.Partitions, fp)
 				req.Topics = append(req.Topics, ft)
 				cid := "reader"
-				out, err := h.handleFetch(readerCtx, &protocol.RequestHeader{APIKey: 1, APIVersion: 11, CorrelationID: 1, ClientID: &cid}, req)
+				out, err := func() (out []byte, err error) {
+					defer func() {
+						if rec := recover(); rec != nil {
+							out, err = nil, fmt.Errorf("panic in handleFetch: %v", rec)
+						}
+					}()
+					return h.handleFetch(readerCtx, &protocol.RequestHeader{APIKey: 1, APIVersion: 11, CorrelationID: 1, ClientID: &cid}, req)
+				}()
 				if err != nil || out == nil {
 					fetches = append(fetches, map[string]any{"o": o, "code": -100, "hw": int64(-1), "kind": "err", "len": 0, "aligned": true, "intact": true, "first": int64(-1), "starts": []int64{}, "mb": 200})
 					continue
@@ -765,7 +853,7 @@ func lgRunSchedule(t *testing.T, sc lgSched) (lines []map[string]any, hits map[s
 					gone := false
 					s3.mu.Lock()
 					for key := range s3.idx {
-						if lgBaseOfKey(key) == st.Base {
+						if strings.Contains(key, "/"+lgTopic+"/0/") && lgBaseOfKey(key) == st.Base {
 							delete(s3.idx, key)
 							gone = true
 						}
@@ -793,6 +881,9 @@ func lgRunSchedule(t *testing.T, sc lgSched) (lines []map[string]any, hits map[s
 						}
 						s3.mu.Lock()
 						for key, body := range s3.seg {
+							if !strings.Contains(key, "/"+lgTopic+"/0/") {
+								continue // decoy partition / topic
+							}
 							sb := lgBaseOfKey(key)
 							registered := false
 							for _, sg := range stt.Segs {
@@ -833,6 +924,8 @@ func lgRunSchedule(t *testing.T, sc lgSched) (lines []map[string]any, hits map[s
 			}
 			r.mu.Unlock()
 			recordRef()
+			decoy()
+			synctest.Wait()
 			grid()
 		}
 		// drain: finish every in-flight request with successful uploads
@@ -869,6 +962,8 @@ func lgRunSchedule(t *testing.T, sc lgSched) (lines []map[string]any, hits map[s
 			t.Fatalf("verif harness: %d requests still in flight after the drain", left)
 		}
 		wg.Wait()
+		synctest.Wait()
+		decoy()
 		synctest.Wait()
 		grid()
 		if up {
